@@ -73,12 +73,15 @@ func genRefCase(r *rng, id string) *ValCase {
 		inner, mi := target()
 		anc, ma := target(DMem{"$anchor", DStr("ea")})
 		// the same relative reference text in every embedded resource: it means something else in each
-		selfForm := pick(r, []string{"#/$defs/inner", "#ea", "#/$defs/inner"})
-		selfMarker := mi
-		if selfForm == "#ea" {
-			selfMarker = ma
-		}
+		selfForm := pick(r, []string{"#/$defs/inner", "#ea", "#/$defs/inner", "#", "#"})
 		res, mr := target(DMem{"$id", DStr(eid)}, DMem{"$defs", DObj{{"inner", inner}, {"anc", anc}, {"self", DObj{{"$ref", DStr(selfForm)}}}}})
+		selfMarker := mi
+		switch selfForm {
+		case "#ea":
+			selfMarker = ma
+		case "#":
+			selfMarker = mr // the empty fragment: the root of THIS resource, not of the document
+		}
 		name := fmt.Sprintf("e%d", i)
 		defs = append(defs, DMem{name, res})
 		refForms := []string{eid, euri}
@@ -266,7 +269,41 @@ func genDynCase(r *rng, id string) *ValCase {
 	if quiet && n < 2 {
 		n = 2
 	}
-	resDoc := func(k int) DObj {
+	// resources entered through a pointer into their interior: their root is never evaluated, yet
+	// they are on the dynamic scope (their anchors count)
+	interior := make([]bool, n+1)
+	for k := 1; k < n; k++ {
+		interior[k] = r.chance(1, 3)
+	}
+	hopTo := func(k int) string {
+		if interior[k] {
+			return fmt.Sprintf("r%d#/$defs/entry", k)
+		}
+		return fmt.Sprintf("r%d", k)
+	}
+	resDoc0 := func(k int) DObj { return nil }
+	_ = resDoc0
+	resDoc := func(k int) (out DObj) {
+		defer func() {
+			if !interior[k] {
+				return
+			}
+			// move everything but $id and $defs below $defs/entry
+			id, _ := out.get("$id")
+			defsV, _ := out.get("$defs")
+			entry := DObj{}
+			for _, m := range out {
+				if m.K != "$id" && m.K != "$defs" {
+					entry = append(entry, m)
+				}
+			}
+			nd := DObj{}
+			if dv, ok := defsV.(DObj); ok {
+				nd = append(nd, dv...)
+			}
+			nd = append(nd, DMem{"entry", entry})
+			out = DObj{{"$id", id}, {"$defs", nd}}
+		}()
 		o := DObj{{"$id", DStr(fmt.Sprintf("%sr%d", base, k))}}
 		sub := DObj{}
 		kindOfRes := r.intn(4)
@@ -286,10 +323,10 @@ func genDynCase(r *rng, id string) *ValCase {
 			sub = append(sub, DMem{"n", DObj{{"$anchor", DStr("node")}, {"const", DStr(m)}}})
 		}
 		if k+1 < n {
-			hop := DObj{{"$ref", DStr(fmt.Sprintf("r%d", k+1))}}
+			hop := DObj{{"$ref", DStr(hopTo(k + 1))}}
 			switch r.intn(4) {
 			case 0:
-				o = append(o, DMem{"$ref", DStr(fmt.Sprintf("r%d", k+1))})
+				o = append(o, DMem{"$ref", DStr(hopTo(k + 1))})
 			case 1:
 				o = append(o, DMem{"allOf", DArr{hop}})
 			case 2:
@@ -381,7 +418,7 @@ func genDynCase(r *rng, id string) *ValCase {
 		mk++
 		m := fmt.Sprintf("m%d", mk)
 		markers = append(markers, m)
-		alt := DObj{{"$id", DStr(base + "alt")}, {"$ref", DStr(fmt.Sprintf("r%d", n-1))},
+		alt := DObj{{"$id", DStr(base + "alt")}, {"$ref", DStr(hopTo(n - 1))},
 			{"$defs", DObj{{"n", DObj{{"$dynamicAnchor", DStr("node")}, {"const", DStr(m)}}}}}}
 		for i := range root {
 			if root[i].K == "$defs" {
@@ -432,6 +469,19 @@ func genDynCase(r *rng, id string) *ValCase {
 
 func init() {
 	families["ref"] = func(r *rng, id string) Case { return genRefCase(r, id) }
+	// the same universes read as draft-07: definitions, fragment-only $id as anchors, $id with an empty
+	// fragment, loaded documents that declare no $schema (they inherit the root's draft)
+	families["ref7"] = func(r *rng, id string) Case {
+		c := genRefCase(r, id)
+		c.Doc = toDraft7(r, c.Doc, true)
+		for i := range c.Universe {
+			if c.Universe[i].Doc != nil {
+				c.Universe[i].Doc = toDraft7(r, c.Universe[i].Doc, false)
+			}
+		}
+		c.Note += ".d7"
+		return c
+	}
 	families["dyn"] = func(r *rng, id string) Case { return genDynCase(r, id) }
 }
 
@@ -446,4 +496,54 @@ func dotty(r *rng, uri string) string {
 		return ""
 	}
 	return uri[:j+1] + pick(r, []string{"zz/../", "./", "a/b/../../", "./zz/../"}) + uri[j+1:]
+}
+
+// toDraft7 rewrites a 2020-12 universe document into its draft-07 reading.
+func toDraft7(r *rng, d Doc, root bool) Doc {
+	var conv func(d Doc, top bool) Doc
+	conv = func(d Doc, top bool) Doc {
+		switch x := d.(type) {
+		case DArr:
+			out := make(DArr, len(x))
+			for i, e := range x {
+				out[i] = conv(e, false)
+			}
+			return out
+		case DObj:
+			_, hasID := x.get("$id")
+			out := DObj{}
+			if top && root {
+				out = append(out, DMem{"$schema", DStr(pick(r, []string{"http://json-schema.org/draft-07/schema#", "https://json-schema.org/draft-07/schema#"}))})
+			}
+			for _, m := range x {
+				switch {
+				case m.K == "$defs":
+					out = append(out, DMem{"definitions", conv(m.V, false)})
+				case m.K == "$anchor" && !hasID:
+					if sv, ok := m.V.(DStr); ok {
+						out = append(out, DMem{"$id", DStr("#" + string(sv))})
+					}
+				case m.K == "$anchor":
+					// a resource root cannot carry both: the anchor is dropped (references to it fail in both readings)
+				case m.K == "$id":
+					if sv, ok := m.V.(DStr); ok && !strings.Contains(string(sv), "#") && r.chance(1, 3) {
+						out = append(out, DMem{"$id", DStr(string(sv) + "#")}) // an empty fragment is no fragment
+					} else {
+						out = append(out, m)
+					}
+				case m.K == "$ref" || m.K == "$dynamicRef":
+					if sv, ok := m.V.(DStr); ok {
+						out = append(out, DMem{m.K, DStr(strings.ReplaceAll(string(sv), "/$defs/", "/definitions/"))})
+					} else {
+						out = append(out, m)
+					}
+				default:
+					out = append(out, DMem{m.K, conv(m.V, false)})
+				}
+			}
+			return out
+		}
+		return d
+	}
+	return conv(d, true)
 }
